@@ -40,6 +40,13 @@ structure WState where
   lgDeferred : List Int := []   -- destroyed list of the last top-level line (settled after its nested lines)
   lgDead : Bool := false        -- rejected already, or a destructor fault was injected (C19's business)
   lgChecks : Nat := 0
+  -- stand-alone C12 replay check (membership reconstructed from the event stream vs the mask the implementation reports)
+  evMember : Std.HashMap Nat (List Nat) := {}   -- storage kind -> membership replayed from its events
+  evMask : Std.HashMap Nat (List Nat) := {}     -- storage kind -> mask reported since the last `events` line
+  evOff : List Nat := []                        -- storages taken out (emission toggled, bulk clear)
+  evDead : Bool := false
+  evChecks : Nat := 0
+  afterPurge : Bool := false   -- between an op that makes deletions effective and the next mutating op
   -- statistics
   cases : Nat := 0
   lines : Nat := 0
@@ -103,6 +110,7 @@ def splitLedger (r : String) : String × Option (List Int) :=
   | _ => (r, none)
 
 def sortInts (l : List Int) : List Int := l.mergeSort (· ≤ ·)
+def sortNats (l : List Nat) : List Nat := l.mergeSort (· ≤ ·)
 
 /-- Under an armed fault both sides must report the panic (reasons differ textually). -/
 def faultAgree (op : WOp) (impl model : WRes) : Bool :=
@@ -165,7 +173,7 @@ def worldLine (st : WState) (line : String) : WState × List String :=
   | ["case", id] =>
     let (st, outs) := st.closeCase
     ({ st with caseHash := 7, caseNontrivial := false, caseId := id, lineNo := 0, model := {},
-               diverged := false, pending := [], mon := {}, monDead := false, lgHeld := [], lgDeferred := [], lgDead := false, afterMaint := false, afterRjoin := false, pendingFault := none, leaked := st.leaked + st.mon.leaked, cases := st.cases + 1 }, outs)
+               diverged := false, pending := [], mon := {}, monDead := false, lgHeld := [], lgDeferred := [], lgDead := false, evMember := {}, evMask := {}, evOff := [], evDead := false, afterPurge := false, afterMaint := false, afterRjoin := false, pendingFault := none, leaked := st.leaked + st.mon.leaked, cases := st.cases + 1 }, outs)
   | lt =>
     let (r, ledger) := splitLedger r0
     let st := { st with lineNo := st.lineNo + 1, lines := st.lines + 1,
@@ -179,7 +187,7 @@ def worldLine (st : WState) (line : String) : WState × List String :=
     match lt, toks r with
     | ["fault", n], _ =>
       (match n.toNat? with
-       | some n => ({ st with pendingFault := some n, faults := st.faults + 1, caseNontrivial := true, lgDead := true,
+       | some n => ({ st with pendingFault := some n, faults := st.faults + 1, caseNontrivial := true, lgDead := true, evDead := true,
                               mon := { st.mon with fault := some n } }, [])
        | none => (st, [s!"BAD case={st.caseId} line={st.lineNo} unparsable fault line"]))
     | ["dump"], rts =>
@@ -271,7 +279,18 @@ def worldLine (st : WState) (line : String) : WState × List String :=
             let afterRjoin := match op, nestedTag with
               | .rjoin .., _ => true
               | _, _ => if isProbe then st.afterRjoin else false
-            let st := { st with afterMaint := afterMaint, afterRjoin := afterRjoin }
+            let afterPurge := match op, nestedTag with
+              | .ent .merge, none | .ent (.delNow _), none | .ent (.delBatch _), none | .ent .delAll, none => true
+              | _, some _ => st.afterPurge
+              | _, none => if isProbe then st.afterPurge else false
+            let dead := fun (h : Nat) =>
+              match resolve st.mon.log h with
+              | some e => !st.mon.ent.live.contains e
+              | none => false
+            let mutatingThroughDead := match op with
+              | .getMut _ h _ _ | .ins _ h _ | .rem _ h | .entry _ h _ | .mutOrDefault _ h _ _ => dead h
+              | _ => false
+            let st := { st with afterMaint := afterMaint, afterRjoin := afterRjoin, afterPurge := afterPurge }
             let shown := match nestedTag with
               | some t => s!"in {t} {l}"
               | none => l
@@ -286,6 +305,12 @@ def worldLine (st : WState) (line : String) : WState × List String :=
               let extra := extra ++
                 (if tag == "C12" && st.afterRjoin then
                   [s!"MON C13 case={st.caseId} line={st.lineNo} C13 events emitted by a restricted join differ from 'exactly the items fetched mutably' ({why}) op=[{shown}] impl=[{r}]"]
+                else []) ++
+                (if tag == "C04" && st.afterPurge && (match op with | .mask _ | .get .. | .has .. | .count _ | .isEmpty _ | .slice _ => true | _ => false) then
+                  [s!"MON C05 case={st.caseId} line={st.lineNo} C05 after a deletion took effect the components differ from 'the deleted entities lost theirs, every other entity kept its own' ({why}) op=[{shown}] impl=[{r}]"]
+                else []) ++
+                (if tag == "C03" && mutatingThroughDead then
+                  [s!"MON C04 case={st.caseId} line={st.lineNo} C04 an operation through a dead handle was not refused: the map from live entity to component changed without an operation on a live entity ({why}) op=[{shown}] impl=[{r}]"]
                 else [])
               ({ st with monDead := true, mons := st.mons + 1 },
                [s!"MON {tag} case={st.caseId} line={st.lineNo} {why} op=[{shown}] impl=[{r}]"] ++ extra)
@@ -315,7 +340,44 @@ def worldLine (st : WState) (line : String) : WState × List String :=
                 ({ st with lgDead := true, mons := st.mons + 1 },
                  o1 ++ o2 ++ [s!"MON C08 case={st.caseId} line={st.lineNo} C08 values {st.lgHeld} were moved into the world and neither handed back nor destroyed although the world was dropped (leak) op=[{shown}] impl=[{r}]"])
             | _, _ => (st, o1)
-        (st, out1 ++ out2 ++ out3)
+        -- 4. stand-alone event replay (C12): insertions and removals replayed over the (empty) membership at
+        --    registration must reproduce the mask the implementation itself reports
+        let (st, out4) :=
+          if st.evDead then (st, []) else
+          match op, ires with
+          | .emit k _, _ => ({ st with evOff := k :: st.evOff }, [])
+          | .clear k, _ => ({ st with evOff := k :: st.evOff }, [])
+          | .dropWorld, _ => ({ st with evDead := true }, [])
+          | .mask k, .ids l => if nestedTag.isSome then (st, []) else ({ st with evMask := st.evMask.insert k l }, [])
+          | .events k, .events evs =>
+            if nestedTag.isSome || st.evOff.contains k || k < 6 then (st, []) else   -- kinds 6…11 are the tracking wrappers
+            let mem0 := st.evMember.getD k []
+            let step := evs.foldl (fun (acc : List Nat × Option String) ev =>
+              match acc.2 with
+              | some _ => acc
+              | none =>
+                match ev with
+                | .inserted i => if acc.1.contains i then (acc.1, some s!"an insertion event for index {i}, which the replayed membership already contains")
+                                 else (i :: acc.1, none)
+                | .removed i => if acc.1.contains i then (acc.1.erase i, none)
+                                else (acc.1, some s!"a removal event for index {i}, which the replayed membership does not contain")
+                | .modified _ => acc) (mem0, none)
+            match step with
+            | (_, some why) =>
+              ({ st with evDead := true, mons := st.mons + 1 },
+               [s!"MON C12 case={st.caseId} line={st.lineNo} C12 the event stream contains {why} op=[{l}] impl=[{r}]"])
+            | (mem, none) =>
+              let st := { st with evMember := st.evMember.insert k mem, evChecks := st.evChecks + 1 }
+              match st.evMask.get? k with
+              | none => (st, [])
+              | some ids =>
+                let st := { st with evMask := st.evMask.erase k }
+                if sortNats mem == sortNats ids then (st, [])
+                else
+                  ({ st with evDead := true, mons := st.mons + 1 },
+                   [s!"MON C12 case={st.caseId} line={st.lineNo} C12 replaying the insertion and removal events gives membership {sortNats mem} but the storage reports {sortNats ids} op=[{l}] impl=[{r}]"])
+          | _, _ => (st, [])
+        (st, out1 ++ out2 ++ out3 ++ out4)
 
 partial def worldLoop (h : IO.FS.Stream) (st : WState) : IO WState := do
   let line ← h.getLine
